@@ -22,7 +22,8 @@ LEVEL = "exploration"
 RULE = ("vector-space / dot / cross / unit laws on the public API and operators for every ordered pair of coordinate "
         "systems of equal dimension (4 + 36 + 144 pairs, third operand in a rotating system), both flavors, scalar "
         "factors of either sign; a cell is (law, system a, system b, backend), non-trivial when both sides were "
-        "evaluated on representable operands and compared")
+        "evaluated on representable operands and compared; mixed-backend operand pairs (array x object, NumPy x Awkward) too."
+        " Backends: 60-digit objects, float64 objects, one-element NumPy and Awkward arrays.")
 ASSUMPTIONS = [
     "laws are compared through the monitor's own readout of stored coordinates and its own conversions",
     "tau-stored operands are forward timelike and only meet positive factors / sums (negated or subtracted "
@@ -34,7 +35,7 @@ SHARD_TIMEOUT = {"quick": 900, "thorough": 7200}
 
 
 def plan(tier, seed):
-    specs = [{"asys": list(s), "mode": m} for s in R.ALL_SYSTEMS for m in ("mp", "f64")]
+    specs = [{"asys": list(s), "mode": m} for s in R.ALL_SYSTEMS for m in ("mp", "f64", "numpy", "awkward")]
     specs.append({"arrays": True})
     specs += [{"mixed": True, "dim": d} for d in (2, 3, 4)]
     return specs
@@ -294,7 +295,7 @@ def run_shard(spec, tier, seed):
             return gen.vec4(r, core=core, wide=False)
         return gen.vec(r, dim, core=core, wide=False)
 
-    for di in range(DRAWS[tier]):
+    for di in range(DRAWS[tier] if mode.name in ("mp", "f64") else max(3, DRAWS[tier] // 5)):
         for bi, bsys in enumerate(systems):
             csys = systems[(bi + di + 1) % len(systems)]
             a_rv, alab = genv(asys)
@@ -349,7 +350,10 @@ def run_shard(spec, tier, seed):
             J.num("dot symmetric", cell, ab, Bv.dot(A), unit**2, det)
             J.num("dot additive (a+b).c=a.c+b.c", cell, AB.dot(Cv), L.num_of(A.dot(Cv)) + L.num_of(Bv.dot(Cv)), unit**2, det)
             J.num("dot homogeneous (ka).b=k(a.b)", cell, A.scale(n1).dot(Bv), k1 * L.num_of(ab), unit**2 * max(abs(k1), 1), dk)
-            J.num("operator @ is dot", cell, A @ Bv, ab, unit**2, det)
+            if mode.name == "awkward":
+                res.count("operator_matmul_skipped_for_awkward(C05 known finding)")
+            else:
+                J.num("operator @ is dot", cell, A @ Bv, ab, unit**2, det)
             exp_dot = R.op_dot(ea, eb)
             J.num("dot is Euclidean (2D/3D) / Minkowski (4D)", cell, ab, exp_dot, unit**2, det)
             selfdot = A.dot(A)
